@@ -22,6 +22,7 @@ CORPUS = {
                                             "let joined = concat /plain/{ 'x$y str } (/sub/{ 'a-b-c int });\nres joined on get -> <{}>;\n",
     "paths-that-differ-by-a-trailing-slash": "res /items on get -> <{}>;\nres /items/ on get -> <{}>;\nres / on get -> <{}>;\nres /items/{ 'id int } on get -> <{}>;\nres /items/{ 'id int }/ on get -> <{}>;\n",
     "reference-names-with-punctuation": "let @money$amount = { 'value num, 'currency str };\nlet @line-item = { 'price @money$amount, 'next? @line-item };\nres /invoice on get -> <{ 'total @money$amount, 'lines [@line-item] }>;\n",
+    "resources-without-transfers": "let item = /items/{ 'id int };\nres item;\nres /health;\nres concat item /parts/{ 'part str };\nres /other/{ 'k num } on get -> <{}>;\n",
     "refs-explicit": "let @thing = { 'id! int, 'next? @thing };\nlet @name = str;\nres /things on get -> <[@thing]>;\nres /names on get -> <@name>;\n",
     "refs-implicit-recursion": "let tree = rec x { 'children [x] };\nlet node = { 'left? node, 'v num };\nres /t on get -> <tree>;\nres /n on put : <node> -> <node>;\n",
     "refs-annotated": "# description: \"a described thing\", title: \"Thing\"\nlet @d = { 'a num };\n# description: \"a described name\"\nlet @n = str `title: \"N\"`;\nlet @arr = [@d];\nres /d on get -> <@d>;\nres /n on get -> <{ 'n @n, 'arr @arr }>;\n",
